@@ -98,7 +98,15 @@ JSON_CFGS = ["{}", '{"BaseDir":"./"}', '{"IgnoreModules":["x"]}', "{", "[]", "",
              '{"IgnoreFileErrTypes":[{"File":"(","Types":[1]}]}',
              '{"PathSeparator":"(","ProjectFiles":["f0.lua"]}',
              '{"OpenErrorTypes":[22,23,24,25,29,99,-1],"IgnoreErrorTypes":[0,1,2,300]}',
-             '{"GlobalVar":["("],"IgnoreVar":["*"],"AssocialList":["(", "txt"],"OtherDir":"("}']
+             '{"GlobalVar":["("],"IgnoreVar":["*"],"AssocialList":["(", "txt"],"OtherDir":"("}',
+             '{"ProtocolVars":["c2s","s2s"]}', '{"ProtocolVars":["c2s","s2s","("],"ProjectFiles":["f0.lua"]}',
+             '{"ProtocolVars":["c2s"],"GlobalVar":["c2s"]}']
+
+# project-specific protocol prefixes (luahelper.json ProtocolVars): same member under several prefixes, defined / used in
+# every order (the global table chains same-named entries; look-ups walk the chain by prefix)
+PROTO_STATS = ['c2s.login = function(a) end', 's2s.login = function(a, b) end', 'c2s.login(1)', 's2s.login(1, 2)',
+               'function c2s.login() end', 'function s2s.logout() end', 'x = s2s.logout', 'c2s.logout()', 'c2s.x = 1 c2s.x = 2',
+               'local p = c2s.login or s2s.login', 's2s = {}', 'c2s.a.b = s2s.a.b', '_G.c2s.login = 1']
 
 
 # statements whose shape is legal Lua but unusual: literal / parenthesised prefixes, _G in every position, self outside
@@ -133,9 +141,16 @@ def gen_server(rng, tier):
                 i = rng.randrange(len(text) + 1)
                 text = text[:i] + rng.choice(["(", "'", "[[", "--[[", "end", " = ", "\\", "function "]) + text[i:]
             files.append(("f%d.lua" % f if f < 2 else "sub/f2.lua", text))
+        cfg = rng.choice(JSON_CFGS) if rng.random() < 0.3 else None
+        if cfg is not None and "ProtocolVars" in cfg:
+            for fi in range(len(files)):
+                ls = files[fi][1].split("\n")
+                for _ in range(rng.choice([1, 2, 4])):
+                    ls.insert(rng.randrange(len(ls) + 1), rng.choice(PROTO_STATS))
+                files[fi] = (files[fi][0], "\n".join(ls))
         items = ["F:%s:%s" % (hx(p), hx(t)) for p, t in files]
-        if rng.random() < 0.3:
-            items.append("F:%s:%s" % (hx("luahelper.json"), hx(rng.choice(JSON_CFGS))))
+        if cfg is not None:
+            items.append("F:%s:%s" % (hx("luahelper.json"), hx(cfg)))
         i = rng.randrange(nfiles)
         items.append("S:open:%d" % i)
         text = files[i][1]
